@@ -8,6 +8,7 @@ import NflowsModel.Lemmas.Multiscale
 import NflowsModel.Lemmas.Quad
 import NflowsModel.Lemmas.SqueezeIndex
 import NflowsModel.Lemmas.SqueezeLayout
+import NflowsModel.Lemmas.RQInverseWhole
 /-!
 # C02 — inverse undoes forward (both orders) and returns the negated log-abs-det
 
@@ -160,5 +161,36 @@ theorem squeeze_inverse_layout {α : Type} [Inhabited α] (Y : Array α) (B C Ho
 
 /-! non-vacuity -/
 example : ((-1:ℝ) ≤ 0) ∧ ((0:ℝ) ≤ 1 + 1 + -1) ∧ ((-1:ℝ) = 0 → (0:ℝ) < 1) := by norm_num
+
+/-! ## the executed rational-quadratic programs, both directions, end to end -/
+
+/-- **End to end (RQ): `forward ∘ inverse = id` on `[bottom, top]` and `inverse ∘ forward = id` on `[left, right]`**, for
+    the two list programs `rqSpline … false` / `rqSpline … true` themselves (softmax, floors, cumsum, pinned knots, the two
+    searches over different knot lists, gathers, discriminant assertion, root, closed forms), every accepted configuration,
+    every unnormalised parameter vectors — knots and end-points included. -/
+theorem rq_program_roundtrip (e : Float → ℝ) (c : RQCfg) (uw uh ud : List ℝ) (hv : RQWhole.RQValid e c uw uh ud) :
+    (∀ y, e c.box.bottom ≤ y → y ≤ e c.box.top →
+        RQWhole.val e c uw uh ud (RQInverseWhole.inv e c uw uh ud y) = y) ∧
+    (∀ x, e c.box.left ≤ x → x ≤ e c.box.right →
+        RQInverseWhole.inv e c uw uh ud (RQWhole.val e c uw uh ud x) = x) :=
+  ⟨fun y h0 h1 => RQInverseWhole.val_inv hv y h0 h1, fun x h0 h1 => RQInverseWhole.inv_val hv x h0 h1⟩
+
+/-- **End to end (RQ): the inverse program returns the negated log-abs-det of the forward program at the point it returns**,
+    for every `y` of the closed box (the two searches select the same bin, also at the knots) — and read from the other side. -/
+theorem rq_program_logdet_negates (e : Float → ℝ) (c : RQCfg) (uw uh ud : List ℝ) (hv : RQWhole.RQValid e c uw uh ud) :
+    (∀ y, e c.box.bottom ≤ y → y ≤ e c.box.top →
+        RQInverseWhole.invLd e c uw uh ud y = - RQWhole.ld e c uw uh ud (RQInverseWhole.inv e c uw uh ud y)) ∧
+    (∀ x, e c.box.left ≤ x → x ≤ e c.box.right →
+        RQWhole.ld e c uw uh ud x = - RQInverseWhole.invLd e c uw uh ud (RQWhole.val e c uw uh ud x)) :=
+  ⟨fun y h0 h1 => RQInverseWhole.invLd_eq_neg_ld hv y h0 h1, fun x h0 h1 => RQInverseWhole.ld_eq_neg_invLd hv x h0 h1⟩
+
+/-- `RQInverseWhole.inv` / `invLd` ARE the inverse program's outputs wherever it succeeds -/
+theorem rq_program_inv_is_output (e : Float → ℝ) (c : RQCfg) (uw uh ud : List ℝ) (y : ℝ) (r : ℝ × ℝ)
+    (h : rqSpline (NF.realX e) c uw uh ud true y = .ok r) :
+    RQInverseWhole.inv e c uw uh ud y = r.1 ∧ RQInverseWhole.invLd e c uw uh ud y = r.2 := by
+  simp [RQInverseWhole.inv, RQInverseWhole.invLd, h]
+
+/-- non-vacuity: the round trip on the concrete one-bin configuration -/
+example (y : ℝ) (hy0 : 0 ≤ y) (hy1 : y ≤ 1) := RQInverseWhole.example_roundtrip y hy0 hy1
 
 end Properties.C02
